@@ -160,6 +160,29 @@ trait RescueApi<const W: usize> {
     fn hash_elems(_e: &[Self::F]) -> Option<Vec<Vec<u8>>> {
         None
     }
+    /// Jive: the last partial block is completed by writing 1, 0, .. over the rate, the capacity holds a padding flag
+    const JIVE: bool = false;
+    /// (a, b, merge(a, b)) for two digests obtained by hashing seeded bytes; elements as canonical bytes
+    fn merge_ev(k: u64) -> (Vec<Vec<u8>>, Vec<Vec<u8>>, Vec<Vec<u8>>);
+    /// (seed, merge_with_int(seed, v))
+    fn merge_int_ev(k: u64, v: u64) -> (Vec<Vec<u8>>, Vec<Vec<u8>>);
+}
+macro_rules! merge_impls {
+    ($H:ty) => {
+        fn merge_ev(k: u64) -> (Vec<Vec<u8>>, Vec<Vec<u8>>, Vec<Vec<u8>>) {
+            let a = <$H>::hash(&[k as u8, 0xa1, (k >> 8) as u8]);
+            let b = <$H>::hash(&[k as u8, 0xb2]);
+            let m = <$H>::merge(&[a, b]);
+            let e = |d: &<$H as Hasher>::Digest| d.as_elements().iter().map(|x| ib(*x)).collect::<Vec<_>>();
+            (e(&a), e(&b), e(&m))
+        }
+        fn merge_int_ev(k: u64, v: u64) -> (Vec<Vec<u8>>, Vec<Vec<u8>>) {
+            let a = <$H>::hash(&[k as u8, 0xc3]);
+            let m = <$H>::merge_with_int(a, v);
+            let e = |d: &<$H as Hasher>::Digest| d.as_elements().iter().map(|x| ib(*x)).collect::<Vec<_>>();
+            (e(&a), e(&m))
+        }
+    };
 }
 struct A64;
 impl RescueApi<12> for A64 {
@@ -201,6 +224,7 @@ impl RescueApi<12> for A64 {
     fn hash_elems(e: &[Self::F]) -> Option<Vec<Vec<u8>>> {
         Some(Rp64_256::hash_elements(e).as_elements().iter().map(|e| ib(*e)).collect())
     }
+    merge_impls!(Rp64_256);
 }
 struct AJ;
 impl RescueApi<8> for AJ {
@@ -236,6 +260,14 @@ impl RescueApi<8> for AJ {
     fn limb(e: Self::F) -> Option<u64> {
         Some(e.inner())
     }
+    const JIVE: bool = true;
+    fn hash_bytes(b: &[u8]) -> Option<Vec<Vec<u8>>> {
+        Some(RpJive64_256::hash(b).as_elements().iter().map(|e| ib(*e)).collect())
+    }
+    fn hash_elems(e: &[Self::F]) -> Option<Vec<Vec<u8>>> {
+        Some(RpJive64_256::hash_elements(e).as_elements().iter().map(|e| ib(*e)).collect())
+    }
+    merge_impls!(RpJive64_256);
 }
 struct A62;
 impl RescueApi<12> for A62 {
@@ -271,6 +303,7 @@ impl RescueApi<12> for A62 {
     fn hash_elems(e: &[Self::F]) -> Option<Vec<Vec<u8>>> {
         Some(Rp62_248::hash_elements(e).as_elements().iter().map(|e| ib(*e)).collect())
     }
+    merge_impls!(Rp62_248);
 }
 
 fn ib<F: StarkField>(e: F) -> Vec<u8> {
@@ -380,11 +413,17 @@ fn carry_state<const W: usize, A: RescueApi<W>>(mds: &[[A::F; W]; W], row: usize
 fn sponge_trace<const W: usize, A: RescueApi<W>>(out: &mut dyn Write, rng: &mut Rng) {
     let drive = |elems: &[A::F]| -> Vec<(Vec<Vec<u8>>, Vec<Vec<u8>>)> {
         let mut state = [A::F::ZERO; W];
-        state[A::CAP_START] = A::F::from(elems.len() as u32);
+        state[A::CAP_START] = if A::JIVE { A::F::from((elems.len() % A::RATE_WIDTH != 0) as u32) } else { A::F::from(elems.len() as u32) };
         let mut pairs = vec![];
         for block in elems.chunks(A::RATE_WIDTH) {
             for (i, e) in block.iter().enumerate() {
                 state[A::RATE_START + i] += *e;
+            }
+            if A::JIVE && block.len() < A::RATE_WIDTH {
+                state[A::RATE_START + block.len()] = A::F::ONE;
+                for i in block.len() + 1..A::RATE_WIDTH {
+                    state[A::RATE_START + i] = A::F::ZERO;
+                }
             }
             let pre = st(&state);
             A::perm(&mut state);
@@ -392,7 +431,7 @@ fn sponge_trace<const W: usize, A: RescueApi<W>>(out: &mut dyn Write, rng: &mut 
         }
         pairs
     };
-    for n in [0usize, 1, 2, 7, 8, 9, 15, 16, 17, 24] {
+    for n in [0usize, 1, 2, 3, 4, 5, 6, 7, 8, 9, 10, 11, 12, 13, 15, 16, 17, 24] {
         let elems: Vec<A::F> = (0..n).map(|i| if i % 4 == 0 { -A::F::ONE } else { A::F::from(rng.next() as u32) * A::F::from(rng.next() as u32) }).collect();
         if let Some(digest) = A::hash_elems(&elems) {
             let pairs = drive(&elems);
@@ -417,6 +456,53 @@ fn sponge_trace<const W: usize, A: RescueApi<W>>(out: &mut dyn Write, rng: &mut 
             writeln!(out, "{}", json!({"ev": "sponge", "kind": "bytes", "elems": elems.iter().map(|e| ib(*e)).collect::<Vec<_>>(), "bytes": bytes,
                 "pre": pairs.iter().map(|p| p.0.clone()).collect::<Vec<_>>(), "post": pairs.iter().map(|p| p.1.clone()).collect::<Vec<_>>(), "digest": digest})).unwrap();
         }
+    }
+    // merge and merge_with_int: the state handed to the permutation is rebuilt here from the documented layout; TLC derives the
+    // same state from (a, b) / (seed, integer) and the digest from the recorded permutation image
+    let from_b = |x: &Vec<u8>| A::F::read_from_bytes(x).unwrap();
+    let m64: u64 = {
+        let mb = A::F::get_modulus_le_bytes();
+        u64::from_le_bytes(mb[..8].try_into().unwrap())
+    };
+    for k in 0..4u64 {
+        let (a, b, m) = A::merge_ev(k);
+        let mut state = [A::F::ZERO; W];
+        if A::JIVE {
+            for i in 0..4 {
+                state[i] = from_b(&a[i]);
+                state[4 + i] = from_b(&b[i]);
+            }
+        } else {
+            state[A::CAP_START] = A::F::from(8u32);
+            for i in 0..4 {
+                state[A::RATE_START + i] = from_b(&a[i]);
+                state[A::RATE_START + 4 + i] = from_b(&b[i]);
+            }
+        }
+        let pre = st(&state);
+        A::perm(&mut state);
+        writeln!(out, "{}", json!({"ev": "rmerge", "a": a, "b": b, "pre": pre, "post": st(&state), "digest": m})).unwrap();
+    }
+    let ints: Vec<u64> = vec![0, 1, 5, m64 - 1, m64, m64 + 1, m64 + 2, m64.wrapping_mul(2).wrapping_sub(1), m64.wrapping_mul(2), m64.wrapping_mul(2).wrapping_add(1),
+                              m64.wrapping_mul(3), m64.wrapping_mul(4).wrapping_add(3), u64::MAX, u64::MAX - 1, 1 << 32, 1 << 62, 1 << 63, rng.next(), rng.next() | (1 << 63)];
+    for (k, v) in ints.into_iter().enumerate() {
+        let (seed, m) = A::merge_int_ev(k as u64, v);
+        let mut state = [A::F::ZERO; W];
+        let lo = A::F::read_from_bytes(&(v % m64).to_le_bytes()).unwrap();
+        let hi = v / m64;
+        let cnt = A::F::from(if hi == 0 { 5u32 } else { 6u32 });
+        let base = if A::JIVE { 0 } else { A::RATE_START };
+        for i in 0..4 {
+            state[base + i] = from_b(&seed[i]);
+        }
+        state[base + 4] = lo;
+        if hi > 0 {
+            state[base + 5] = A::F::from(hi as u32);
+        }
+        if A::JIVE { state[W - 1] = cnt } else { state[A::CAP_START] = cnt }
+        let pre = st(&state);
+        A::perm(&mut state);
+        writeln!(out, "{}", json!({"ev": "rmergeint", "seed": seed, "v": v.to_le_bytes().to_vec(), "pre": pre, "post": st(&state), "digest": m})).unwrap();
     }
 }
 
